@@ -1,6 +1,8 @@
 package harness
 
 import (
+	"github.com/go-spring/log/verifsim/simos"
+	"syscall"
 	"bytes"
 	"encoding/json"
 	"fmt"
@@ -85,6 +87,9 @@ func (c12) Gen(rt *rapid.T, thorough bool) any {
 	s.Handles = rapid.IntRange(0, 2).Draw(rt, "handles")
 	s.Cycle = rapid.IntRange(0, 3).Draw(rt, "cycle") == 0
 	s.BadHandle = rapid.IntRange(0, 9).Draw(rt, "bad_handle") == 0
+	if s.Kind == "File" && rapid.IntRange(0, 2).Draw(rt, "write_fail") == 0 {
+		s.WriteFailAt = rapid.IntRange(1, 4).Draw(rt, "write_fail_at")
+	}
 	if s.Via == "refresh" && rapid.IntRange(0, 3).Draw(rt, "odd_name") == 0 {
 		s.HName = rapid.SampledFrom([]string{"access_log", "access-log", "AccessLog", "a1", "log.access"}).Draw(rt, "handle_name")
 	}
@@ -161,6 +166,10 @@ func runC12Refresh(x *Exec, s *AsyncScn) {
 	case "File":
 		lg.FileDir, lg.FileName = "/logs", "named.log"
 		spec.Apps = append(spec.Apps, AppSpec{Name: "unused", Type: "Discard"})
+		if s.WriteFailAt > 0 {
+			// one write is refused (the disk was full for a moment): that one may be missing, no other
+			x.FS.AddFault(&simos.FaultRule{Op: "write", Prefix: "/logs/named.log", Err: syscall.ENOSPC, Skip: s.WriteFailAt - 1, Count: 1})
+		}
 	case "RollingFile":
 		lg.FileDir, lg.FileName, lg.Rotation = "/logs", "rf.log", "h"
 		lg.Separate, lg.Async = s.Separate, s.RAsync
@@ -196,6 +205,14 @@ func runC12Refresh(x *Exec, s *AsyncScn) {
 	if s.BadHandle {
 		if err == nil {
 			o.violate("unconfigured-handle-accepted", "C12/unconfigured-handle-accepted", "a handle was requested for logger %q which is not configured, yet Refresh succeeded", "nosuch")
+		} else {
+			// nothing about the request has changed: the same configuration fails again, and the
+			// name still has its one handle
+			var err2 error
+			x.do("refresh-again", func() { call(func() { err2 = log.Refresh(spec.Render()) }) })
+			if err2 == nil {
+				o.violate("unconfigured-handle-accepted", "C12/unconfigured-handle-accepted-on-second-attempt", "Refresh failed for the unconfigured handle %q, then succeeded for the same configuration", "nosuch")
+			}
 		}
 		o.Reached = true
 		x.do("destroy", func() { call(log.Destroy) })
@@ -340,6 +357,12 @@ func runC12Writers(x *Exec, s *AsyncScn, sys *asyncSys, write func([]byte) (int,
 			sinks, names = append(sinks, seq), append(names, fmt.Sprintf("rec%d", i))
 		}
 	}
+	failedOS := x.FS.FailedWriteSet()
+	for _, ps := range subs {
+		for _, sb := range ps {
+			sb.Failed = failedOS[string(sb.Payload)]
+		}
+	}
 	for si, seq := range sinks {
 		// match the received sequence against each writer's snapshots, in call order
 		next := make([]int, len(subs))
@@ -357,8 +380,8 @@ func runC12Writers(x *Exec, s *AsyncScn, sys *asyncSys, write func([]byte) (int,
 				emptiesGot++
 				continue
 			}
-			for p := range subs { // skip empties in the expected sequences
-				for next[p] < len(subs[p]) && len(subs[p][next[p]].Payload) == 0 {
+			for p := range subs { // skip empties (and writes the OS refused) in the expected sequences
+				for next[p] < len(subs[p]) && (len(subs[p][next[p]].Payload) == 0 || (subs[p][next[p]].Failed && !bytes.Equal(got, subs[p][next[p]].Payload))) {
 					next[p]++
 				}
 			}
@@ -396,7 +419,7 @@ func runC12Writers(x *Exec, s *AsyncScn, sys *asyncSys, write func([]byte) (int,
 			o.violate("raw-empty-count", "C12/raw-empty-write-count/"+s.Kind, "%s received %d empty writes, %d were issued", names[si], emptiesGot, emptiesWant)
 		}
 		for p := range subs {
-			for next[p] < len(subs[p]) && len(subs[p][next[p]].Payload) == 0 {
+			for next[p] < len(subs[p]) && (len(subs[p][next[p]].Payload) == 0 || subs[p][next[p]].Failed) {
 				next[p]++
 			}
 			if next[p] < len(subs[p]) && len(o.Violations) == 0 {
